@@ -219,7 +219,7 @@ def c02(ck):
 CHECKS = {"C01": c01, "C02": c02}
 INFO = {}
 NOT_APPLICABLE = {}
-HOOK_COMMITS = ["8766e8b"]
+HOOK_COMMITS = ["8766e8b", "b654880"]
 
 
 def _load_plugins():
